@@ -38,6 +38,7 @@ type checker struct {
 	curPrior        map[int][]int
 	raceReplays     int
 	freshChecked    int
+	unreproduced    []string
 }
 
 type foundViolation struct {
@@ -404,11 +405,19 @@ func (c *checker) resolveNew() {
 		c.say("  %s", clip(fv.v.Detail, 700))
 		c.exit = 1
 	}
+	// observed but not reproducible: never reported as a violation. If nothing else was reported
+	// the run is inconclusive (exit 2), otherwise they are listed for the record.
+	for _, u := range c.unreproduced {
+		c.say("[dst] observed but NOT reproducible (no verdict from it): %s", u)
+	}
+	if len(c.unreproduced) > 0 && c.exit == 0 {
+		infra("%d observed violation class(es) could not be reproduced and nothing else was found: no verdict", len(c.unreproduced))
+	}
 }
 
 func (c *checker) replayDir() string {
 	d := filepath.Join(os.Getenv("DST_VERIF_DIR"), "replays")
-	_ = os.MkdirAll(d, 0o755)
+	_ = os.MkdirAll(d, 0755)
 	return d
 }
 
@@ -486,7 +495,8 @@ func (c *checker) makeReplay(fv *foundViolation) string {
 			rp.Plans = append(c.historyPlans(fv), plan)
 			rp.Note = "the difference depends on what the node executed before: `plans` run in one fresh node, `alone` in another"
 			if ok2, _ := replayReproduces(rp); !ok2 {
-				infra("cross-process difference for plan %d did not reproduce, neither alone nor after the history of its node; detail: %s", fv.index, fv.v.Detail)
+				c.unreproduced = append(c.unreproduced, fmt.Sprintf("cross-process difference for plan %d did not reproduce, neither alone nor after the history of its node; detail: %s", fv.index, clip(fv.v.Detail, 300)))
+				return ""
 			}
 			rp = c.reduceHistory(rp, hbudget)
 		}
@@ -494,6 +504,9 @@ func (c *checker) makeReplay(fv *foundViolation) string {
 	}
 	rp := &Replay{Property: c.prop, Mode: "plan", Plans: []*Plan{fv.plan}, Expected: &fv.v}
 	ok, _ := replayReproduces(rp)
+	for attempt := 1; !ok && attempt < 4; attempt++ {
+		ok, _ = replayReproduces(rp)
+	}
 	if !ok {
 		// the recorded schedule may not be faithful: fall back to the generated (seeded) plan
 		plan := GenPlan(c.prop, c.seed, fv.index, c.tier)
@@ -505,7 +518,8 @@ func (c *checker) makeReplay(fv *foundViolation) string {
 			if ok3, _ := replayReproduces(rp); !ok3 {
 				rp.Plans[len(rp.Plans)-1] = fv.plan
 				if ok4, _ := replayReproduces(rp); !ok4 {
-					infra("violation %s of plan %d did not reproduce in a fresh node, neither alone nor after the history of its node; detail: %s", fv.v.Key, fv.index, fv.v.Detail)
+					c.unreproduced = append(c.unreproduced, fmt.Sprintf("violation %s of plan %d did not reproduce in a fresh node, neither alone nor after the history of its node; detail: %s", fv.v.Key, fv.index, clip(fv.v.Detail, 300)))
+					return ""
 				}
 			}
 			rp = c.reduceHistory(rp, hbudget)
@@ -516,6 +530,13 @@ func (c *checker) makeReplay(fv *foundViolation) string {
 	if c.tier == "thorough" {
 		budget = 1000
 	}
+	// a violation whose replay is not stable (nondeterminism outside the seams: goroutines or map
+	// iteration the simulator does not control) is not minimised - a reduction accepted by luck
+	// would not reproduce afterwards; the plan as observed is kept
+	if s1, _ := replayReproduces(rp); !s1 {
+		rp.Note = strings.TrimSpace(rp.Note + " Not minimised: the replay does not reproduce in every execution.")
+		return c.writeReplay(rp, fv)
+	}
 	min := minimise(rp, budget, &c.minimiseRuns)
 	return c.writeReplay(min, fv)
 }
@@ -524,14 +545,30 @@ func (c *checker) writeReplay(rp *Replay, fv *foundViolation) string {
 	name := fmt.Sprintf("%s-%s-seed%d-run%d.json", c.prop, Digest(fv.v.Key), c.seed, fv.index)
 	p := filepath.Join(c.replayDir(), name)
 	b, _ := json.MarshalIndent(rp, "", " ")
-	if err := os.WriteFile(p, b, 0o644); err != nil {
+	if err := os.WriteFile(p, b, 0644); err != nil {
 		infra("write replay: %v", err)
 	}
-	// the file itself must reproduce, in a fresh process
+	// the file itself must reproduce, in a fresh process. When a source of nondeterminism outside
+	// the simulator's seams is involved (a third-party package ranging over one of its own maps),
+	// a replay shows the violation only in some of its executions: it is retried, and the number
+	// of attempts it took is written into the file.
 	var back Replay
 	_ = json.Unmarshal(b, &back)
-	if ok, _ := replayReproduces(&back); !ok {
-		infra("minimised replay %s does not reproduce", p)
+	attempts := 0
+	ok := false
+	for attempts < 8 && !ok {
+		attempts++
+		ok, _ = replayReproduces(&back)
+	}
+	if !ok {
+		c.unreproduced = append(c.unreproduced, fmt.Sprintf("replay %s (key %s) does not reproduce in 8 attempts", p, fv.v.Key))
+		_ = os.Remove(p)
+		return ""
+	}
+	if attempts > 1 {
+		rp.Note = strings.TrimSpace(rp.Note + fmt.Sprintf(" This replay reproduced in attempt %d: its outcome also depends on nondeterminism outside the simulator's seams (e.g. map iteration inside a third-party package); repeat it if it does not show at once.", attempts))
+		b, _ = json.MarshalIndent(rp, "", " ")
+		_ = os.WriteFile(p, b, 0644)
 	}
 	return p
 }
@@ -616,6 +653,9 @@ func replayMain(args []string) int {
 		return 2
 	}
 	ok, v := replayReproduces(&rp)
+	for attempt := 1; !ok && attempt < 6 && strings.Contains(rp.Note, "outside the simulator's seams"); attempt++ {
+		ok, v = replayReproduces(&rp)
+	}
 	if ok {
 		fmt.Printf("VIOLATION property=%s replay=%s\n", rp.Property, args[0])
 		if v != nil {
